@@ -225,7 +225,7 @@ func renderEdit(toks []string) string {
 				sb.WriteString(" ")
 			}
 		}
-		sb.WriteString(strings.NewReplacer("U1", "\u00ea", "U4", "\xe9").Replace(t)) // (tokens aU1 / TU1 / aU4: names with a non-ASCII letter)
+		sb.WriteString(strings.NewReplacer("U1", "\u00ea", "U4", "\xe9", "U5", "\ufeff").Replace(t)) // (tokens aU1 / TU1 / aU4: names with a non-ASCII letter)
 	}
 	return sb.String()
 }
@@ -362,10 +362,18 @@ func cmdIdl(args []string) int {
 			for _, k := range c.Cls {
 				plain.WriteString(conc[k][0])
 			}
+			var crs strings.Builder
+			for _, k := range c.Cls {
+				if k == "sp" {
+					crs.WriteString("\r")
+				} else {
+					crs.WriteString(conc[k][0])
+				}
+			}
 			for _, ctx := range []string{"", "interface", "interface ", "interface a.b", "interface a.b\n", "interface a.b\nmethod M(", "interface a.b\nmethod M(a",
 				"interface a.b\nmethod M(a:", "interface a.b\nmethod M() ", "interface a.b\nmethod M() ->", "interface a.b\nmethod M() -> ()", "interface a.b\nmethod M() -> ()\nerror E",
 				"interface a.b\ntype T", "interface a.b\ntype T (a, "} {
-				for _, t := range []string{plain.String(), tail} {
+				for _, t := range []string{plain.String(), tail, crs.String()} {
 					logC09(log, ctx+t)
 					n++
 				}
